@@ -158,11 +158,18 @@ def scalar():
     extract_scalar.generate(REPO, OUT, write_if_changed)
 
 
+def effect():
+    """`util::rng_fill_bytes` (raw pointer, while loop, generator draws) translated to a Lean definition over a store log (tools/extract_effect.py)"""
+    import extract_effect
+    extract_effect.generate(REPO, OUT, write_if_changed)
+
+
 def main():
     traits()
     sys.path.insert(0, os.path.dirname(os.path.abspath(__file__)))
     simd()
     scalar()
+    effect()
     if os.path.exists(os.path.join(os.path.dirname(os.path.abspath(__file__)), "extract_zig.py")):
         import extract_zig
         extract_zig.tables(REPO, OUT, write_if_changed)
